@@ -5,6 +5,7 @@
  *
  * output lines (hex fields: lower-case hex, "-" = empty):
  *   R <code|c> <first-byte> <fixed>                     report() on exit code <code> (c = crashed)
+ *   Q <code|c> <out-hex>                                the whole output of report() when the child wrote "out\0tail" (len 8)
  *   I <uidp> <gidn> <uidq> <auto_qmail-hex> <aliasempty-hex>   ids obtained by the real initialize()
  *   P <pwtext-hex>                                      scripted passwd db + home directories from now on
  *   N <assign-hex> <rc> <cdb-hex> <stderr-hex>          real qmail-newu on that users/assign; its users/cdb is current
@@ -250,6 +251,10 @@ static void do_R(void) {
     report(&capss1, c == 256 ? 9 : (c << 8), "", 0); substdio_flush(&capss1);
     if (c == 256) fprintf(h_out, "R c "); else fprintf(h_out, "R %d ", c);
     fprintf(h_out, "%d %d\n", cap.n ? cap.p[0] : -1, cap.n > 1);
+    hbuf_reset(&cap); capss1.p = 0;
+    report(&capss1, c == 256 ? 9 : (c << 8), "out\0tail", 8); substdio_flush(&capss1);
+    if (c == 256) fprintf(h_out, "Q c "); else fprintf(h_out, "Q %d ", c);
+    h_hex(cap.p, cap.n); fputc('\n', h_out);
   }
 }
 static void do_P(const unsigned char *t, size_t n) {
